@@ -8,6 +8,15 @@ CHECKS = {
  "C11": ("exploration", "differential runtime monitor (in-process): MixMatcher vs declarative set reference over permuted entry lists, monotonicity probe after every Add",
          "Every generated entry list is loaded in all permutations (<=4 entries, <=5 in thorough) or 8 sampled orders plus duplicates and through the file loader; every probe name is compared with a set-based reference written from the property text. Held on the sampled lists only.",
          "Trusts Go's regexp package and the 40-line reference; entry alphabet excludes bytes the line format cannot carry (newline, '#', ':', '.')", "C11"),
+ "C03": ("fault_enumeration", "offline history checker over client-side event logs (exactly-once, header/rcode reference) against the real binary, all listener kinds x upstream transports x scripted upstream faults",
+         "Every query of the matrix listener x upstream transport x upstream outcome (reply, rcodes, silence, garbage, close, reset, half frame, HTTP 500) and of the query-shape list is sent to the instrumented proxy binary; the recorded responses are matched to queries and judged by exactly-once, deadline, header and rcode rules. Missing/late responses are re-run alone three times before they count.",
+         "Trusts miekg/dns as the client-side codec, the fake upstreams, loopback networking; lateness is judged with 3 s slack on a 6 s deadline", "C03"),
+ "C04": ("exploration", "online keyed-answer oracle on every response of a concurrent end-to-end stress run, joined offline with the fake upstreams' serial logs",
+         "Fake upstreams derive every RDATA byte from (question, upstream tag, reply serial); each of the tens of thousands of responses received over all listeners under reordering, caching and eviction pressure is recomputed from its own question and compared record by record, and every serial is joined with the upstream log. Held on the interleavings the run produced.",
+         "Trusts the fake upstreams and miekg/dns; SERVFAIL responses under load are counted, not judged (C03 judges them)", "C04"),
+ "C20": ("exploration", "Go race detector + checkptr, pool sanitizer (poison/quarantine/canary, hook H1) and ownership hooks (H3, H5) observing hostile end-to-end and in-process transport workloads; reports parsed and de-duplicated from race logs",
+         "Any data race with a mosproxy frame, any double release / write-after-release report, any poisoned byte reaching a keyed answer fails the check. Reach: all listeners and upstream transports, abandoned client connections, cancellation storms with 0-2.5 ms deadlines, cache eviction with injected delays, quarantine on and off.",
+         "Race detector only sees races that happen on the executed schedules; foreign (dependency-only) races are listed but do not fail the check", "C20"),
 }
 NOT_YET = {}
 
